@@ -153,14 +153,16 @@ class VecCompare:
             if abs(ri * ri * S - ai * ai) > g * ai * ai + t * S:
                 self.diverge(ln, op, " ".join(iv), "a/|a|", "component^2 * |a|^2 differs from a_i^2 beyond gamma_%d" % (2 * d + 8)); return
 
-def oracle_lines(ctx, out, cases=None, path=None, mode="vec"):
+def oracle_lines(ctx, out, cases=None, path=None, mode="vec", scripts=None):
     """'!O C19 ...' lines of the harness: defining formula vs library.  Known signatures are counted, the rest are violations."""
-    known = 0; bad = []
+    known = 0; bad = []; cur = None
     for l in out.split("\n"):
+        if l.startswith("####"): cur = l[4:].strip()
         if not l.startswith("!O C19"): continue
         f = dict(p.split("=", 1) for p in re.findall(r"(\w+=\S+)", l))
         if any(f.get("op") == k["op"] and f.get("deviation") == k["deviation"] for k in KNOWN_SIGNATURES):
             known += 1; continue
+        f["script"] = cur
         bad.append((l, f))
     seen = set()
     for l, f in bad:
@@ -170,6 +172,7 @@ def oracle_lines(ctx, out, cases=None, path=None, mode="vec"):
         v = {"kind": "input", "oracle": "defining_formula", "op": op, "what": l,
              "replay_cmd": "build/bin/san/run_geo --%s %s" % (mode, path)}
         if cases is not None and "line" in f: v["input"] = cases[int(f["line"]) - 1]
+        if scripts is not None and f.get("script") in scripts: v["script"] = f["script"]; v["script_lines"] = scripts[f["script"]]
         ctx.violations.append(v)
     return known, len(bad)
 
@@ -213,8 +216,8 @@ def compare_meshes(ctx, scripts, impl_out, model_out, stats):
         if il is None or ml is None:
             stats["divergences"] += 1
             divs.append({"script": name, "why": "script missing in the output of " + ("impl" if il is None else "model")}); continue
-        if any(l.startswith("!! CRASH") for l in il):
-            div(name, "the harness crashed (sanitizer abort / signal) on this script", (0, "crash", "-"), [l for l in il if l.startswith("!!")], None); continue
+        if any("!! CRASH" in l for l in il):
+            div(name, "the harness crashed (sanitizer abort / signal) on this script", (0, "crash", "-"), [l for l in il if "!! CRASH" in l], None); continue
         ie, ir = mesh_records(il); me, mr = mesh_records(ml)
         if ie != me:
             k = next((i for i, (x, y) in enumerate(zip(ie, me)) if x != y), min(len(ie), len(me)))
@@ -350,7 +353,7 @@ def check_C19(ctx):
         mdivs = compare_meshes(ctx, scripts, m1, m2, stats)
         for dv in mdivs[:3]:
             ctx.broken.append({"kind": "correspondence", "name": "GeometryKernel %s: library vs model (Geo/GeoModel.v)" % dv.get("component", "?"), "detail": dv})
-        k, nbad2 = oracle_lines(ctx, m1, None, mpath, "mesh")
+        k, nbad2 = oracle_lines(ctx, m1, None, mpath, "mesh", scripts)
         ctx.cov["oracle_failures_other_than_known"] += nbad2
         ctx.cov["evaluations"] += stats["queries"]
         ctx.cov["mesh"] = {k: v for k, v in stats.items()}
@@ -393,4 +396,137 @@ def check_C19(ctx):
         "floating point: finite inputs of moderate exponent for arithmetic; the rounding bounds are standard (Higham) and are checked, not proved",
         "sqrt (norm, length, normalized, the final normalisation of normal()) is related to the model through squares only",
         "mixed-scalar arithmetic (e.g. Vec3i * double), apply(), swap(), iterators, and DIM other than 2,3,4 are not exercised",
+    ]
+
+# ------------------------------------------------------------------------------------ C20
+
+TSAN_ENV = {"TSAN_OPTIONS": "halt_on_error=0 exitcode=66 report_signal_unsafe=0 history_size=4"}
+
+def write_scripts(path, scripts):
+    with open(path, "w") as f:
+        for name, lines in scripts.items():
+            f.write("#### %s\n" % name)
+            for l in lines: f.write(l + "\n")
+
+def tsan_reports(err):
+    reps = re.split(r"(?=WARNING: ThreadSanitizer)", err)
+    return [r for r in reps if r.startswith("WARNING: ThreadSanitizer")]
+
+def run_conc(impl, path, nthreads, rounds, timeout=1500):
+    rc, out, err = fw.sh([impl, path, str(nthreads), str(rounds)], timeout=timeout, env=TSAN_ENV)
+    return rc, out, err
+
+def check_C20(ctx):
+    import geogen
+    os.makedirs(RUN, exist_ok=True)
+    # ---- (c) regenerate the write-set table from the current sources (fails closed)
+    try:
+        import importlib, constwrites
+        importlib.reload(constwrites)
+        text = constwrites.generate()
+        changed = fw.write_if_changed(os.path.join(fw.COQ, "Gen", constwrites.OUT_NAME), text)
+        if changed: ctx.log("regenerated Gen/ConstWrites.v changed")
+        rows = re.findall(r'^  mk "([^"]+)" "([^"]+)" "((?:[^"]|"")*)" (KConst|KIter) (true|false) (\[[^\]]*\]) (\[[^\]]*\]) (\[[^\]]*\]) (\d+) (\[[^\]]*\]) (\[[^\]]*\])', text, flags=re.M)
+        ctx.cov["const_table"] = {"kernel_const_members": sum(1 for r in rows if r[3] == "KConst"), "iterator_members": sum(1 for r in rows if r[3] == "KIter"),
+                                  "classes": len({r[0] for r in rows}), "regenerated_changed": bool(changed)}
+        dirty = [r for r in rows if r[4] == "false" or r[6] != "[]" or r[8] != "0" or r[9] != "[]" or r[10] != "[]" or
+                 (r[7] not in ("[]", '["ResourceManager::storage_trackers_"]')) or (r[3] == "KConst" and r[5] != "[]")]
+        ctx.cov["const_table"]["not_clean"] = ["%s::%s %s" % (r[0], r[1], r[2]) for r in dirty][:10]
+        if dirty:
+            ctx.broken.append({"kind": "write-set-table", "name": "Gen/ConstWrites.v: members with hidden shared state (C20_no_hidden_state will not check)",
+                               "detail": {"members": [{"class": r[0], "name": r[1], "signature": r[2], "kind": r[3], "body_found": r[4], "writes_own": r[5], "writes_through_pointer": r[6],
+                                                       "mutable_touched": r[7], "const_casts": r[8], "static_locals": r[9], "nonconst_calls_through_pointer": r[10]} for r in dirty[:10]]}})
+    except Exception as ex:
+        ctx.broken.append({"kind": "translator", "name": "translate/constwrites.py", "detail": str(ex)[:2000]})
+        dirty = []
+    # ---- (a)(b)(c) the Coq obligations
+    fw.coq_prove(ctx, "Props/Properties_C20.v")
+    # ---- support: ThreadSanitizer run on the real library
+    impl = fw.build_harness(ctx, "tsan", "run_conc")
+    scripts = {}
+    _, rscripts = load_replay(ctx)
+    scripts.update(rscripts)
+    try:
+        import kgen
+        kdriver = fw.build_driver(ctx, "Extract/Extract.v", "kdriver.ml", "kdriver")
+        kpath = os.path.join(RUN, "C20-kgen-%d.scripts" % ctx.seed)
+        kgen.generate(kdriver, ctx.seed, 24 if ctx.quick() else 400, ["valid", "setops", "swaps"], 12 if ctx.quick() else 30, kpath, prefix="conc")
+        import kernel_engine as ke
+        scripts.update(ke.script_blocks(kpath))
+    except Exception as ex:
+        ctx.notes.append("kgen scripts unavailable (%s); only gen/geogen.py meshes were used" % str(ex)[:300])
+    gs = geogen.mesh_scripts(ctx.seed, True)
+    scripts.update({k: v for i, (k, v) in enumerate(gs.items()) if ctx.quick() is False or i % 3 == 0})
+    scripts.update(geogen.conc_scripts(ctx.seed, 16 if ctx.quick() else 200))
+    path = os.path.join(RUN, "C20-conc-%d.scripts" % ctx.seed)
+    write_scripts(path, scripts)
+    stats = {"scripts": len(scripts), "runs": 0, "thread_counts": [], "queries_per_pass": 0, "tsan_reports": 0, "mismatches": 0, "by_mesh_kind": {}}
+    if impl:
+        plan = [(2, 3), (3, 2), (5, 2), (8, 2), (16, 1)] if ctx.quick() else [(n, 3) for n in range(2, 17)]
+        if ctx.broken: plan = [(n, 6) for n in range(2, 17)]          # search budget when an obligation / the table broke
+        digests = set()
+        for nthreads, rounds in plan:
+            rc, out, err = run_conc(impl, path, nthreads, rounds)
+            stats["thread_counts"].append(nthreads)
+            reps = tsan_reports(err)
+            stats["tsan_reports"] += len(reps)
+            lines = [l for l in out.split("\n") if l.startswith("script ")]
+            stats["runs"] += len(lines)
+            for l in lines:
+                f = dict(p.split("=", 1) for p in l.split()[2:])
+                digests.add(f["digest"])
+                stats["by_mesh_kind"][f["mesh"]] = stats["by_mesh_kind"].get(f["mesh"], 0) + 1
+                if nthreads == plan[0][0]: stats["queries_per_pass"] += int(f["queries"])
+            bad = [l for l in out.split("\n") if l.startswith("!O C20")]
+            stats["mismatches"] += len(bad)
+            for l in bad[:2]:
+                m = re.search(r"script=(\S+)", l)
+                nm = m.group(1) if m else None
+                if len(ctx.violations) < 5:
+                    ctx.violations.append({"kind": "input", "oracle": "threads_observe_single_threaded_results", "what": l, "threads": nthreads, "rounds": rounds,
+                                           "script_lines": scripts.get(nm), "replay_cmd": "build/bin/tsan/run_conc %s %d %d" % (path, nthreads, rounds)})
+            if reps:
+                # localise: which script races?  (each script alone, same thread count)
+                culprit = None
+                for nm, ls in scripts.items():
+                    one = os.path.join(RUN, "C20-one.scripts")
+                    write_scripts(one, {nm: ls})
+                    rc1, o1, e1 = run_conc(impl, one, nthreads, max(rounds, 3), timeout=300)
+                    if tsan_reports(e1):
+                        culprit = (nm, ls, tsan_reports(e1)[0]); break
+                rep = (culprit[2] if culprit else reps[0])
+                if len(ctx.violations) < 5:
+                    ctx.violations.append({"kind": "input", "oracle": "ThreadSanitizer", "what": "data race reported during concurrent read-only queries: " + " ".join(rep.split())[:1800],
+                                           "threads": nthreads, "rounds": rounds, "script_lines": culprit[1] if culprit else None, "script": culprit[0] if culprit else None,
+                                           "replay_cmd": "TSAN_OPTIONS='halt_on_error=0 exitcode=66' build/bin/tsan/run_conc %s %d %d" % (path, nthreads, rounds)})
+                break
+            if rc not in (0,) and not reps and not bad:
+                ctx.violations.append({"kind": "input", "oracle": "crash", "what": "run_conc exited with %d: %s" % (rc, err[-1200:]), "threads": nthreads,
+                                       "replay_cmd": "build/bin/tsan/run_conc %s %d %d" % (path, nthreads, rounds)})
+                break
+        ctx.cov["evaluations"] += stats["runs"]
+        ctx.cov["distinct_nontrivial"] += len(digests)
+    ctx.cov["conc"] = stats
+    ctx.cov["rule"] = (
+        "evaluations = (script, thread count) pairs executed under ThreadSanitizer: every script builds ONE shared mesh through harness/kernel_exec.hh "
+        "(gen/kgen.py histories with deletions / swaps / garbage collection and properties on polyhedral meshes, gen/geogen.py shapes, tetrahedral strips and "
+        "fans on TetrahedralMeshTopologyKernel, hexahedral blocks on HexahedralMeshTopologyKernel); then 2..16 threads run 9 batches of const queries "
+        "(entity iteration, all vertex/edge/face/cell circulators, find_halfedge/find_halfface*, is_boundary + boundary iterators, valence, adjacency in cells, "
+        "hex sheets / tet vertices, positions + geometric queries, property values through existing handles) in per-thread rotations; per-thread hashes of everything "
+        "observed are compared with the single-threaded pass, the state digest before/after must be equal. distinct_nontrivial = distinct mesh state digests. "
+        "The write-set table counts are under const_table (regenerated from the clang AST this run).")
+    ctx.cov["samples"] += [{"theorem": t} for t in fw.theorem_statements("Props/Properties_C20.v", 8)][:3]
+    ctx.cov["samples"].append({"script": next(iter(scripts.values()))[:12] if scripts else None})
+    ctx.cov["level_note"] = (
+        "PARTIAL. Proved (Coq): every interleaving of threads made of read-only steps leaves the state unchanged and gives each thread the outputs of its "
+        "sequential run (any schedule, by induction; complete schedules exist and agree); model queries are pure; `Forall clean const_methods` over the table "
+        "regenerated from the clang AST (no writes through this / through pointer members, no mutable member except the excluded ResourceManager::storage_trackers_, "
+        "no const_cast, no function-local static, no non-const call through a pointer member, every const kernel member has an analysed body). "
+        "NOT proved, only observed by ThreadSanitizer on the generated meshes and schedules the OS happened to produce: absence of data races in the compiled "
+        "binary under the C++ memory model, the standard library's and allocator's internal synchronisation, writes through local aliases or callees outside the "
+        "scanned classes (std::, property storage). Race freedom of the binary rests on the soundness of translate/constwrites.py for its syntactic patterns.")
+    ctx.assumptions += [
+        "no thread modifies the mesh during the concurrent phase; property creation/destruction (ResourceManager::storage_trackers_) is excluded as in the property text",
+        "all bottom-up incidences are enabled before the threads start (the circulators of the query batches require them)",
+        "C++ const-correctness: outside the escape hatches listed in Gen/ConstWrites.v a const member function / a const TopologyKernel* cannot modify the object",
     ]
